@@ -473,3 +473,58 @@ pub fn block_on<F: std::future::Future>(f: F) -> F::Output {
         std::thread::yield_now();
     }
 }
+
+// ------------------------------------------------------------------------------------------
+// corpus interface
+// ------------------------------------------------------------------------------------------
+/// What one call of a corpus function looked like from outside.
+#[derive(Clone, Copy, Debug, PartialEq)]
+pub struct CallOut {
+    /// value id decoded from the returned value
+    pub value: u64,
+    /// false iff the function returned Err
+    pub ok: bool,
+    /// oracle footprint of the returned value
+    pub fp: usize,
+    /// structural digest of the returned value
+    pub rdig: u64,
+    /// what the undecorated twin returns for the same arguments (value id)
+    pub twin: u64,
+}
+
+pub type BoxFut = std::pin::Pin<Box<dyn std::future::Future<Output = CallOut>>>;
+
+/// The generator's own record of what it wrote for each corpus function — computed by
+/// tools/gen_corpus.py, independent of cachelito's attribute parser.
+pub struct FnDesc {
+    pub fid: u32,
+    pub fn_name: &'static str,
+    /// name under which statistics and invalidation are registered
+    pub reg_name: &'static str,
+    pub is_async: bool,
+    pub scope_thread: bool,
+    pub policy: &'static str,
+    pub limit: Option<usize>,
+    pub ttl: Option<u64>,
+    pub max_memory: Option<usize>,
+    pub fw: Option<f64>,
+    pub ret_kind: &'static str,
+    pub is_result: bool,
+    /// payload length is meaningful for this return kind
+    pub sized: bool,
+    pub has_cache_if: bool,
+    pub has_invalidate_on: bool,
+    pub tags: &'static [&'static str],
+    pub events: &'static [&'static str],
+    pub deps: &'static [&'static str],
+    /// number of distinct argument tuples the slot mapping can produce
+    pub nslots: u32,
+    /// await points in the body (async only)
+    pub gates: u32,
+    pub receiver: &'static str,
+    pub nargs: u32,
+    pub attr_text: &'static str,
+    pub call: fn(u32) -> CallOut,
+    pub digest: fn(u32) -> u64,
+    pub fut: Option<fn(u32) -> BoxFut>,
+}
